@@ -132,6 +132,12 @@ func (r *vfQRun) do(o string) (res string) {
 	case "close":
 		r.q.Close()
 		return "ok"
+	case "len":
+		// an observation: how many RPCs the queue holds right now (taken under the queue's own lock)
+		r.q.queueMu.Lock()
+		n := r.q.queue.Len()
+		r.q.queueMu.Unlock()
+		return fmt.Sprintf("len:%d", n)
 	}
 	panic("unknown op " + o)
 }
@@ -200,6 +206,8 @@ func (m *vfQModel) step(op, res string) bool {
 	case "close":
 		m.closed = true
 		return res == "ok"
+	case "len":
+		return res == fmt.Sprintf("len:%d", n)
 	}
 	return false
 }
@@ -464,6 +472,9 @@ func vfC15SchedScenarios(thorough bool) []*vfQScenario {
 		mk("push-full-vs-pop", 1, l("a"), l("push:b"), l("pop1")),
 		mk("push-full-vs-close", 1, l("a"), l("push:b"), l("close")),
 		mk("two-pushers-one-slot", 1, l("a"), l("push:b"), l("push:c"), l("pop1", "pop1")),
+		// a parked pusher, then room, then Close, then a look at the queue: nothing may slip into a closed queue
+		mk("push-full-pop-close-len", 1, l("a"), l("push:b"), l("pop1", "close", "len")),
+		mk("push-full-pop-vs-close-len", 1, l("a"), l("push:b"), l("pop1"), l("close", "len", "len")),
 		mk("urgent-vs-normal", 2, nil, l("nbpush:a", "nbpush:b"), l("nbupush:c"), l("pop1", "pop1")),
 		mk("pop-cancel-close", 1, nil, l("pop1"), l("cancel1"), l("close")),
 		mk("full-nb-vs-pop", 1, l("a"), l("nbpush:b", "nbpush:c"), l("pop1")),
